@@ -27,7 +27,7 @@ import (
 //   }
 //   fn main() { println(f(P)); println(f(false)); try { throw("z"); } catch e { println(e.message); } println("done"); }
 
-var verifSlotKinds = []string{"loop", "while", "for", "block", "if", "else", "matcharm", "matchdef", "try", "catch", "call"}
+var verifSlotKinds = []string{"loop", "while", "for", "block", "if", "else", "matcharm", "matchdef", "try", "catch", "call", "operand"}
 var verifExitKinds = []string{"break", "continue", "return", "throw", "fatal"}
 
 type verifNestGen struct {
@@ -107,6 +107,12 @@ func (g *verifNestGen) body(lvl int, inLoop bool) (string, bool) {
 	case "catch":
 		inner, ok := g.body(lvl+1, inLoop)
 		return decl + ind + "try {\n" + ind + "  throw(\"first\");\n" + ind + "} catch e" + fmt.Sprint(lvl) + " {\n" + inner + ind + "  println(\"i" + fmt.Sprint(lvl) + "\");\n" + ind + "}\n" + after, ok
+	case "operand":
+		// the inner construct sits in a block that is the right operand of two pending infix operations: an exit
+		// from inside leaves with operands of the unfinished expression on the operand stack
+		inner, ok := g.body(lvl+1, inLoop)
+		v := fmt.Sprintf("v%d", lvl)
+		return decl + ind + "let " + v + " = 100 - (20 + {\n" + inner + ind + "  println(\"i" + fmt.Sprint(lvl) + "\");\n" + ind + "  3\n" + ind + "});\n" + ind + "println(\"o" + fmt.Sprint(lvl) + "\", " + v + ");\n" + after, ok
 	case "call":
 		g.nfn++
 		name := fmt.Sprintf("h%d", g.nfn)
@@ -117,7 +123,7 @@ func (g *verifNestGen) body(lvl int, inLoop bool) (string, bool) {
 			return "", false
 		}
 		g.helper += "fn " + name + "(p: bool) -> int {\n  let q = 5;\n" + inner + "  println(\"h-end\", q);\n  return 3;\n}\n"
-		return decl + ind + "println(\"r\", " + name + "(p));\n" + after, true
+		return decl + ind + "println(\"r\", 500 - " + name + "(p));\n" + after, true
 	}
 	return "", false
 }
@@ -128,8 +134,31 @@ func (g *verifNestGen) program() (string, bool) {
 		return "", false
 	}
 	f := "fn f(p: bool) -> int {\n  println(\"in\");\n  let a0 = 10;\n" + inner + "  println(\"end\", a0);\n  return 1;\n}\n"
-	main := "fn main() {\n  println(f(P));\n  println(f(false));\n  try { throw(\"z\"); } catch e { println(e.message); }\n  println(\"done\");\n  throw(\"final\");\n}\n"
+	main := "fn main() {\n  println(1000 - f(P));\n  println(2000 - f(false));\n  try { throw(\"z\"); } catch e { println(e.message); }\n  println(\"done\");\n  throw(\"final\");\n}\n"
 	return g.helper + f + main, true
+}
+
+// pendingAtExit classifies the program: does the exit statement leave a construct in whose operands it is nested
+// (an "operand" slot between the exit and its target)? return: any operand slot in the function of the exit;
+// break/continue: an operand slot inside the innermost enclosing loop; throw/fatal unwind through the handler.
+func (g *verifNestGen) pendingAtExit() string {
+	ek := verifExitKinds[g.exit]
+	if ek != "return" && ek != "break" && ek != "continue" {
+		return "none"
+	}
+	for i := len(g.slots) - 1; i >= 0; i-- {
+		k := verifSlotKinds[g.slots[i]]
+		if k == "call" {
+			break
+		}
+		if (k == "loop" || k == "while" || k == "for") && ek != "return" {
+			break
+		}
+		if k == "operand" {
+			return ek
+		}
+	}
+	return "none"
 }
 
 // VerifHarness_Nest: mode 1 (VM vs reference), 16 (tree vs reference), 2, 4.
@@ -145,7 +174,8 @@ func VerifHarness_Nest() {
 		tag += verifSlotKinds[s] + ">"
 	}
 	tag += verifExitKinds[g.exit]
-	errors.VerifTag("nest", tag)
+	errors.VerifTag("__nest", tag)
+	errors.VerifTag("pending-operands-at-exit", g.pendingAtExit())
 	code, ok := g.program()
 	if !ok {
 		errors.VerifReached("not-in-family")
